@@ -39,6 +39,8 @@ FP = {
     "onnxscript/rewriter/rules/common/_redundant_scatter_nd.py": ["ScatterAllDynamic.pattern", "ScatterAllDynamic.check", "ScatterAllDynamic.rewrite",
                                                                     "ScatterAllStatic.pattern", "ScatterAllStatic.check", "ScatterAllStatic.rewrite"],
     "onnxscript/rewriter/rules/common/_collapse_slices.py": ["_check_if_redundant_slice", "_same_shape", "_identity_to_itself", "_potential_redundant_slice"],
+    "onnxscript/rewriter/_matcher.py": ["SimplePatternMatcher._match_constant"],
+    "onnxscript/rewriter/rules/common/_no_op.py": ["mul_by_1", "add_0", "sub_0", "div_by_1", "identity"],
     "onnxscript/rewriter/rules/common/_materialize_reshape_shape.py": [
         "MaterializeReshapeShape.check", "MaterializeReshapeShape.rewrite",
     ],
@@ -880,7 +882,7 @@ def main(run: core.Run) -> None:
             "evConcat:sym", "evReshape:T", "evExpand:T", "evAbs:F", "materialize:some", "flatten:some", "flatten:N",
             "ruleScatterDyn:T", "ruleScatterDyn:F", "expandRemovable:rank1", "expandRemovable:rank2",
             "ruleScatterStatic:T", "ruleScatterStatic:F", "ruleCollapseSlice1:T", "ruleCollapseSlice1:F", "ruleCollapseSlice2:T",
-            "ruleCollapseSlice2:F", "ruleSqueezeReshape:T", "ruleSqueezeReshape:F", "getShapeValue:N", "getShapeValue:some", "spec_gather:N", "spec_gather:some"]
+            "ruleCollapseSlice2:F", "ruleSqueezeReshape:T", "ruleSqueezeReshape:F", "getShapeValue:N", "getShapeValue:some", "spec_gather:N", "spec_gather:some", "ruleNoOp:T", "ruleNoOp:F"]
     missing = [b for b in need if branches.get(b, 0) == 0]
     if missing and not run.violations:
         raise core.Infra(f"generator degenerated: branches never hit: {missing}")
